@@ -142,7 +142,9 @@ def _check(prop, tier, seed, wd, rp, rule, cfgs_quick, cfgs_thorough, mandatory,
     run.rule = rule
     cfgs = cfgs_quick if tier == "quick" else cfgs_thorough
     for name, consts in cfgs:
-        run_config(run, prop, name, consts, wd, seed)
+        # the 3-link pool alone is ~300 000 renderings: every fourth state of it, chosen by hash
+        from .checks_query import big_filter
+        run_config(run, prop, name, consts, wd, seed, probe_filter=big_filter(0, 4) if "3x3" in name else None)
     # the same graphs with every vertex carrying the same explicit uid, and with neighbour caching on
     name, consts = cfgs[-1]
     run_config(run, prop, name + "+sameuid+cache", consts, wd, seed, vertex_cls="mixed-sameuid", caching=True)
